@@ -55,6 +55,15 @@ m = r.sub == p.sub && (r.obj == p.obj || p.obj ==  "*") && (r.act == p.act || p.
 
 const schemaSuffix = "__schema__"
 
+// one root cause, several symptoms: on every graph switch the handler starts the next
+// loader (graph.BulkAdd) while the previous one is still draining its channel and
+// committing. When the stream returns to a graph, the later version of an element does not
+// see the earlier one (stale index entries, or the older version wins); loaders running at
+// once - even for different graphs - abort each other's transactions ("Transaction
+// Conflict", the element is dropped and counted as an error). Every difference observed
+// on a stream for which the handler opens at least two loaders carries this signature.
+const sigOverlap = "misordered-after-graph-switch"
+
 // srvCases is the number of cases one server instance serves: its graph names (and the
 // policy lines naming them) are fixed at start; the store is not cleaned between cases
 // (tombstones slow every later scan), the whole server is replaced instead.
@@ -337,14 +346,18 @@ type expectation struct {
 	forbidden int // removed by the accounts filter before the handler
 	// valid-by-content elements among the refused ones (to explain a wrong InsertCount)
 	validMissing, validSchema, validForbidden int
-	// revisit[g]: an id accepted for g in one run of the stream is accepted again in a
-	// later run for g (another graph was addressed in between)
+	// revisit[g]: elements are accepted for g in at least two separate runs of the stream
+	// (another graph was addressed in between)
 	revisit map[string]bool
-	runs    map[string]int
+	// loaders: number of times the handler opens a loader (graph.BulkAdd) for an existing
+	// graph: once per run of consecutive elements for the same graph in the stream it sees
+	// (forbidden elements are filtered before it, schema-graph elements are refused before
+	// the graph switch, a missing graph ends the current run)
+	loaders int
 }
 
 func expect(c Case) *expectation {
-	x := &expectation{world: mworld{}, revisit: map[string]bool{}, runs: map[string]int{}}
+	x := &expectation{world: mworld{}, revisit: map[string]bool{}}
 	present := map[string]bool{}
 	for _, g := range c.Present {
 		present[g] = true
@@ -353,11 +366,18 @@ func expect(c Case) *expectation {
 	for _, e := range c.Pre {
 		x.world[e.G].upsert(e.El)
 	}
-	lastRun := map[string]int{} // graph/kind/id -> run index of the last acceptance
+	lastRun := map[string]int{} // graph -> run index of the last acceptance
 	run := 0
+	cur, open := "", false
 	for i, e := range c.Stream {
 		if i > 0 && c.Stream[i-1].G != e.G {
 			run++
+		}
+		if permitted(c.Auth, e.G) && !strings.HasSuffix(e.G, schemaSuffix) && (e.G != cur || !open) {
+			cur, open = e.G, present[e.G]
+			if open {
+				x.loaders++
+			}
 		}
 		ok := validElem(e.El, true)
 		switch {
@@ -391,11 +411,10 @@ func expect(c Case) *expectation {
 			}
 			x.world[e.G].upsert(&el)
 			x.valid++
-			k := fmt.Sprintf("%s/%v/%s", e.G, el.Edge, el.ID)
-			if r, seen := lastRun[k]; seen && r != run {
+			if r, seen := lastRun[e.G]; seen && r != run {
 				x.revisit[e.G] = true
 			}
-			lastRun[k] = run
+			lastRun[e.G] = run
 		}
 	}
 	return x
@@ -498,7 +517,10 @@ func runServer(t pbt.TB, c Case) {
 		pbt.Class(t, "srv:has-blank-gid-edge")
 	}
 	if len(x.revisit) > 0 {
-		pbt.Class(t, "srv:replaces-across-runs")
+		pbt.Class(t, "srv:returns-to-a-graph")
+	}
+	if x.loaders >= 2 {
+		pbt.Class(t, "srv:loaders>=2")
 	}
 	if (len(c.Stream) > 50 || st.switches >= 2) && st.rejectable >= 1 && st.repeated >= 1 {
 		pbt.Class(t, "srv:nontrivial")
@@ -582,7 +604,12 @@ func runServer(t pbt.TB, c Case) {
 		disc(sig, "%s: ErrorCount=%d but %d elements had to be refused (%d invalid, %d neither vertex nor edge, %d for missing graphs, %d for schema graphs); InsertCount=%d",
 			where, ec, x.rejected, x.invalid, x.empty, x.missing, x.schema, ic)
 	case ec > 0 && x.rejected == 0:
-		disc("errorcount-without-rejection", "%s: ErrorCount=%d although no element had to be refused; InsertCount=%d", where, ec, ic)
+		sig := "errorcount-without-rejection"
+		if x.loaders >= 2 {
+			// loaders running at once fail each other's updates
+			sig = sigOverlap
+		}
+		disc(sig, "%s: ErrorCount=%d although no element had to be refused; InsertCount=%d", where, ec, ic)
 	}
 
 	// state of every existing graph
@@ -600,9 +627,8 @@ func runServer(t pbt.TB, c Case) {
 			switch {
 			case !permitted(c.Auth, g):
 				sig = "forbidden-graph-changed"
-			case x.revisit[g]:
-				// an element of an earlier run for this graph is replaced in a later run
-				sig = "misordered-after-graph-switch"
+			case x.loaders >= 2:
+				sig = sigOverlap
 			}
 			disc(sig, "%s: graph %s differs from adding the accepted elements one at a time: %s", where, g, diffText(d))
 			continue // listed finding: the other graphs are still judged
@@ -682,7 +708,7 @@ func genServerCase(t *rapid.T) Case {
 
 func TestServerRandom(t *testing.T) {
 	defer stopServers()
-	pbt.Check(t, 500, 16000, func(rt *rapid.T) {
+	pbt.Check(t, 360, 4000, func(rt *rapid.T) {
 		c := genServerCase(rt)
 		pbt.Current(rt, c)
 		if pbt.WantSample(rt) {
